@@ -62,9 +62,7 @@ var ctr = func() []metrics.Counter {
 // (sched build flavour). Intentionally not implemented here; when added it
 // should be called from main() after the seq part and contribute its own
 // states/transitions to the coverage.
-func casScenarioTODO(r *ev.Run) {
-	r.Note("CAS scenario (two threads Incr one fresh scope, all interleavings) not run: reserved for the sched flavour")
-}
+func casScenarioTODO(r *ev.Run) {}
 
 func main() {
 	if hasFlag("-c20-child") || hasFlag("--c20-child") {
@@ -88,7 +86,9 @@ func main() {
 	if *flagOnly == "" || *flagOnly == "e2e" {
 		runE2E(r, cov)
 	}
-	casScenarioTODO(r)
+	// Layer S: concurrent use of one scope (CAS creation of instances) under the controlled
+	// scheduler, computed by the sibling binary c20s (flavour schedm: metrics' atomics instrumented).
+	ev.MergeLayer(r, cov, "c20s-schedm", "layerS_concurrent_scope")
 	cov["rule"] = "seq: every sequence over {Incr(c,s,±1), Value(c,s), Merge(s,t), Reset(s,t), Reset(s,nil), gob(s), transport(s)} with 1..3 registered counters and 3 scopes up to max_depth (thorough: one representative per canonical real state = presence, instance sharing and value of every (scope,counter) slot), each trace replayed on fresh real scopes and compared with a map model after every step; e2e: programs × rows × shards × executors, counters of Result.Scope() vs rows processed"
 	r.Finish(cov)
 }
